@@ -109,6 +109,7 @@ func main() {
 	budgetLeft := func() bool { return time.Now().Before(deadline) }
 
 	var all []violRec
+	var allSamples []map[string]any
 	var states, transitions, frames, fast, slow, first, sticky, peerRuns, altDrops int64
 	var outcomes [5]int64
 	var recFrom [2]int64
@@ -149,6 +150,14 @@ func main() {
 		recFrom[1] += x.recFrom[1].Load()
 		perScenario[sc.name] = map[string]any{"depth": sc.depth, "alphabet": len(sc.events), "states": x.states.Load(), "transitions": x.transitions.Load(), "violations": len(x.viol), "wall_s": time.Since(t0).Seconds()}
 		all = append(all, x.viol...)
+		var classes []string
+		for c := range x.samples {
+			classes = append(classes, c)
+		}
+		sort.Strings(classes)
+		for _, c := range classes {
+			allSamples = append(allSamples, x.samples[c].data)
+		}
 	}
 	for _, e := range envs {
 		if err := e.k.close(); err != nil {
@@ -195,12 +204,15 @@ func main() {
 	r.Set("fail_closed_drops_under_map_full", altDrops)
 	r.Set("per_scenario", perScenario)
 	r.Set("distinct_nontrivial", states)
-	for i, p := range progs {
-		if i < 3 {
-			r.Sample(map[string]any{"rule_program": p.name, "text": p.text})
+	// samples: the smallest sequences of this run per class, from the first scenarios that have one
+	seen := map[string]bool{}
+	for _, sm := range allSamples {
+		cl := sm["class"].(string) + "/" + sm["scenario"].(string)[:3]
+		if !seen[cl] {
+			seen[cl] = true
+			r.Sample(sm)
 		}
 	}
-	r.Sample(map[string]any{"example_sequence": "[LI.T.SYN, swap-rules, LI.T.ACK] : the ACK follows the decision taken for the SYN", "timeouts_s": []int{120, 10, 120}})
 	r.Finish()
 }
 
